@@ -6,16 +6,29 @@ _E = 'hpl.ast.expressions.HplExpression.'
 _Q = [_E + m for m in ('children', 'external_references', 'contains_reference', 'contains_self_reference',
                        'contains_definition')]
 
+_P = 'hpl.ast.predicates.HplPredicate.'
+_V = 'hpl.ast.events.HplEvent.'
+PRED = ['HplPredicateExpression', 'HplVacuousTruth', 'HplContradiction']
+EVENT = ['HplSimpleEvent', 'HplEventDisjunction']
+_PQ = [_P + m for m in ('external_references', 'contains_reference', 'contains_self_reference')]
+_VQ = [_V + m for m in ('aliases', 'external_references', 'contains_reference', 'contains_self_reference',
+                        'simple_events')]
+
 PROP = Prop(
     'C15',
-    modules=['contracts.queries_c15'],
+    modules=['contracts.queries_c15', 'contracts.queries_c15_events'],
     tasks=[
+        *[Fn(q, classes=PRED, safety_tag='C15') for q in _PQ],
+        *[Fn(q, classes=EVENT, safety_tag='C15') for q in _VQ],
         *[Fn(q, classes=EXPR, safety_tag='C15') for q in _Q],
         Fn(_E + 'iterate', safety_tag='C15'),
         Lem('rev_unfold'), Lem('snoc_last'), Lem('preorder_stack_unfold'), Lem('preorder_all_unfold'),
         Lem('stack_push_rev'), Lem('mentioned_unbound_is_free_list'), Lem('mentioned_unbound_is_free'),
     ],
     bounded=[
+        Native('bounded.native_tasks.contracts_on_events', qualnames=_PQ + _VQ,
+               modules=['contracts.queries_c15_events']),
+        Native('bounded.native_tasks.own_field_check'),
         Native('bounded.native_tasks.contracts_on_expressions', qualnames=_Q + [_E + 'iterate'],
                modules=['contracts.queries_c15']),
         Native('bounded.native_tasks.spec_translation', modules=['contracts.queries_c15'],
@@ -27,5 +40,6 @@ PROP = Prop(
         'A-TYPES: fields hold values of their declared classes (typeguard / instance_of validators)',
         'generators are pure: eager evaluation of iterate() equals lazy consumption',
     ],
+    explanation='all reference queries and iterate() proved at expression, predicate and event level; the own-field check (check_some_self_references, which groups references by their printed form) is covered by a bounded stand-in only',
     trusted_base=['z3 5.1.0', 'cvc5 1.0.3 (sequence lemmas)', 'pyvc symbolic executor', 'attrs 24.3'],
 )
